@@ -178,6 +178,11 @@ type ClientOpts struct {
 	// embedding application may replace the service's EXPORTED fields (e.g.
 	// wrap ChainService.BlockHeaders).
 	BeforeStart func(*neutrino.ChainService)
+	// AssertFilterHeader is neutrino.Config.AssertFilterHeader (nil = none, as
+	// before): the operator's assertion "the filter header at this height is
+	// this one"; a stored header that differs makes the client throw its
+	// filter header store away at start-up and sync it anew.
+	AssertFilterHeader *headerfs.FilterHeader
 }
 
 // StartClient creates and starts the real ChainService connected to the
@@ -213,6 +218,8 @@ func (w *World) StartClient(addrs []string, o ClientOpts) error {
 		BlockCacheSize:  o.BlockCache,
 
 		BroadcastTimeout: o.BroadcastTimeout,
+
+		AssertFilterHeader: o.AssertFilterHeader,
 	})
 	if err != nil {
 		_ = db.Close()
@@ -268,15 +275,31 @@ type Snapshot struct {
 	BestHash   chainhash.Hash
 	Current    bool
 	Err        string
+	// HdrTip / FltTip are the tips of the two header stores. They are not
+	// part of what C04 judges (that is the reported best block); they are
+	// part of "did the client's state change": a reorganisation a thousand
+	// blocks deep rolls the block header store back one block per database
+	// commit, which on a machine whose cores are all taken lasts longer than
+	// a deadline, while the best block (bounded by the filter tip) stands
+	// still. A client that is visibly working is not stuck.
+	HdrTip int32
+	FltTip int32
 }
 
-// Sample reads BestBlock and IsCurrent.
+// Sample reads BestBlock, IsCurrent and the tips of the header stores.
 func (w *World) Sample() Snapshot {
 	bs, err := w.Svc.BestBlock()
 	if err != nil {
 		return Snapshot{Err: err.Error()}
 	}
-	return Snapshot{BestHeight: bs.Height, BestHash: bs.Hash, Current: w.Svc.IsCurrent()}
+	s := Snapshot{BestHeight: bs.Height, BestHash: bs.Hash, Current: w.Svc.IsCurrent(), HdrTip: -1, FltTip: -1}
+	if _, h, err := w.Svc.BlockHeaders.ChainTip(); err == nil {
+		s.HdrTip = int32(h)
+	}
+	if _, h, err := w.Svc.RegFilterHeaders.ChainTip(); err == nil {
+		s.FltTip = int32(h)
+	}
+	return s
 }
 
 // CheckBest validates a reported best block: it must be a generator node
